@@ -388,6 +388,25 @@ func (fb *fnBounds) factsBefore(at ssa.Instruction) []constraint {
 			}
 		}
 	}
+	// integer disequalities that hold here (x != y on this path): with x ≤ y known they give x < y, with
+	// x ≥ y known x > y (the `i == len(s) || s[i] …` idiom)
+	for _, cf := range conds {
+		bo, ok := cf.c.(*ssa.BinOp)
+		if !ok || !isIntType(bo.X.Type()) || !(bo.Op == token.NEQ && cf.pol || bo.Op == token.EQL && !cf.pol) {
+			continue
+		}
+		x, okx := fb.linOf(bo.X, bo, 0)
+		y, oky := fb.linOf(bo.Y, bo, 0)
+		if !okx || !oky {
+			continue
+		}
+		why := fmt.Sprintf("branch %s != %s", describeIdx(bo.X), describeIdx(bo.Y))
+		if g := geq(y, x, why); entails(addLenNonNeg(cs, g), g) {
+			cs = append(cs, gt(y, x, why))
+		} else if g := geq(x, y, why); entails(addLenNonNeg(cs, g), g) {
+			cs = append(cs, gt(x, y, why))
+		}
+	}
 	return cs
 }
 
@@ -844,15 +863,31 @@ func (fb *fnBounds) inferPhiInvariants() {
 						ok = false
 						break
 					}
-					goal := pc.mk(ev)
+					// the other phis of this block mentioned by the candidate take their values on this edge;
+					// the incoming value ev is already a pre-state term and must not be substituted again
+					goal := pc.mk(linVar("$self"))
 					goal = fb.substPhis(goal, b, ei, last)
+					if c, ok := goal.e.c["$self"]; ok {
+						rest := goal.e.clone()
+						delete(rest.c, "$self")
+						goal.e = rest.add(ev.scale(c))
+					}
 					facts = addLenNonNeg(facts, goal)
 					if !entails(facts, goal) {
+						if tf := os.Getenv("SPDXVERIF_TRACE_INV"); tf != "" && strings.Contains(fb.fn.Name()+"|"+pc.desc, tf) {
+							fmt.Printf("INV-FAIL %s: %s on edge %d of block %d: goal %s\n", fb.fn.Name(), pc.desc, ei, b.Index, shortVars(goal.e.String()))
+							for _, f := range facts {
+								fmt.Printf("      fact %-50s [%s]\n", shortVars(f.e.String()), f.why)
+							}
+						}
 						ok = false
 						break
 					}
 				}
 				if !ok {
+					if tf := os.Getenv("SPDXVERIF_TRACE_INV"); tf != "" && strings.Contains(fb.fn.Name(), tf) {
+						fmt.Printf("INV-DROP %s: %s\n", fb.fn.Name(), pc.desc)
+					}
 					pc.alive = false
 					changed = true
 				}
